@@ -135,7 +135,13 @@ func (w *world) outstanding(id, via uint32) {
 	must(ts.Task(id, fmt.Sprintf("%08x", reqR3), agent.COMMAND_PIVOT, map[string]any{"Command": "1"}) == nil, "task R3")
 	must(len(a.Tasks) == 4, "agent %x has %d outstanding tasks, want 4", id, len(a.Tasks))
 	a.PortFwdNew(sockFwd, 0, 4444, int(ipLoop), 1, "127.0.0.1:1")
+	// three socks clients open at once; the shapes name the OLDEST one (closing an entry
+	// that is not the last of the table is the interesting case for every table here)
 	a.SocksClientAdd(sockProxy, &memConn{}, 1, []byte{10, 0, 0, 9}, 80)
+	a.SocksClientAdd(sockProxy+1, &memConn{}, 1, []byte{10, 0, 0, 10}, 80)
+	a.SocksClientAdd(sockProxy+2, &memConn{}, 1, []byte{10, 0, 0, 11}, 80)
+	// likewise a second port forward behind the one the shapes name
+	a.PortFwdNew(sockFwd+1, 0, 4445, int(ipLoop), 1, "127.0.0.1:1")
 }
 
 func (w *world) link(parent, child uint32) {
